@@ -162,6 +162,23 @@ for kind in ('gz', 'bz2'):
                 end = min(len(hp[1]), cand + 5000)
                 blob = c1 + comp(kind, hp[1][cand:cand + 10], 9) + comp(kind, hp[1][cand + 10:end], 9)
                 emit(kind, blob, hp[0], hp[1][:end], '%s 3 streams, first compressed length = %d mod %d' % (kind, r, modulus))
+    # ---- total compressed size an exact multiple of the decompressors' read sizes (libbz2 reads 5000 bytes,
+    # the hook build reads 4096/100): the last full read leaves no EOF condition behind
+    for modulus in (5000, 4096, 100):
+        for nstreams in (1, 2):
+            found = None
+            for cand in range(modulus * 2 - 200, len(hp[1]) - 10):
+                if nstreams == 1:
+                    blob = comp(kind, hp[1][:cand], 9)
+                else:
+                    blob = comp(kind, hp[1][:cand // 2], 9) + comp(kind, hp[1][cand // 2:cand], 9)
+                if len(blob) % modulus == 0:
+                    found = (cand, blob)
+                    break
+                if cand > modulus * 3 + 400:
+                    break
+            if found:
+                emit(kind, found[1], hp[0], hp[1][:found[0]], '%s %d stream(s), total compressed size = 0 mod %d' % (kind, nstreams, modulus), expect_ok=None)
     # ---- damaged files
     small = [p for p in payloads if 100 <= len(p[1]) <= 30000]
     for (pname, pdata, entropy) in small:
